@@ -126,7 +126,7 @@ def input_tie(ctx, seed, n):
 
 def run(ctx):
     r = gen.Rng(ctx.seed * 1000003 + 11)
-    input_tie(ctx, ctx.seed + 1100, 1500 if ctx.quick else 30000)
+    input_tie(ctx, ctx.seed + 1100, 600 if ctx.quick else 30000)
     framing(ctx, r.fork())
     for h in range(25 if ctx.quick else 400):
         run_history(ctx, r.fork(), 30, WEIGHTS, oracle)
